@@ -12,7 +12,6 @@
 -/
 import Ark.Proofs.PoolHistory
 import Ark.Props.C01Hist
-import Ark.Proofs.GenBridge.BookPool
 
 namespace Ark.Props.C02
 open Ark Ark.Pool
@@ -141,21 +140,5 @@ theorem count_world : type_of% @Ark.Props.C01Hist.count_world := @Ark.Props.C01H
 
 /-- every NewEntity returns a handle different from all handles returned before -/
 theorem handles_fresh_world : type_of% @Ark.Props.C01Hist.handles_fresh_world := @Ark.Props.C01Hist.handles_fresh_world
-
-
-/-! ### The code itself: `entityPool` of pool.go, translated statement by statement on every run -/
-
-/-- `entityPool.getNew` as in the source = the model's -/
-theorem src_pool_getNew : type_of% @Ark.GenBridge.Book.entityPool_getNew_eq := @Ark.GenBridge.Book.entityPool_getNew_eq
-/-- `entityPool.Get` as in the source = the model's `Pool.get` (fresh ID or head of the implicit free list) -/
-theorem src_pool_get : type_of% @Ark.GenBridge.Book.entityPool_get_eq := @Ark.GenBridge.Book.entityPool_get_eq
-/-- `entityPool.Recycle` as in the source = the model's `Pool.recycle`; reserved IDs panic -/
-theorem src_pool_recycle : type_of% @Ark.GenBridge.Book.entityPool_recycle_eq := @Ark.GenBridge.Book.entityPool_recycle_eq
-/-- `entityPool.Reset` as in the source: slice truncated to the reserved entries, free list emptied -/
-theorem src_pool_reset : type_of% @Ark.GenBridge.Book.entityPool_reset_eq := @Ark.GenBridge.Book.entityPool_reset_eq
-/-- `entityPool.Len` as in the source = the model's -/
-theorem src_pool_len : type_of% @Ark.GenBridge.Book.entityPool_len_eq := @Ark.GenBridge.Book.entityPool_len_eq
-/-- `entityPool.Cap` as in the source = the model's -/
-theorem src_pool_cap : type_of% @Ark.GenBridge.Book.entityPool_cap_eq := @Ark.GenBridge.Book.entityPool_cap_eq
 
 end Ark.Props.C02
